@@ -83,14 +83,17 @@ def lengths(c):
 
 
 def kvec(c):
+    """bloch_vector of the BoundaryConfig: k = theta / L on Bloch axes; on PERIODIC axes an optional leftover component
+    (`leftover`), which periodic faces must ignore"""
     L = lengths(c)
-    return [c["theta"][ax] / L[ax] if c["theta"][ax] != 0.0 else 0.0 for ax in range(3)]
+    lo = c.get("leftover") or [0.0, 0.0, 0.0]
+    return [c["theta"][ax] / L[ax] if c["theta"][ax] != 0.0 else float(lo[ax]) for ax in range(3)]
 
 
 def phases(c):
-    """per-axis phase exp(i k L) of one base period, computed independently of the implementation"""
-    L, k = lengths(c), kvec(c)
-    return [np.exp(1j * k[ax] * L[ax]) if k[ax] != 0.0 else 1.0 for ax in range(3)]
+    """per-axis phase exp(i k L) of one base period, computed independently of the implementation (Bloch axes only)"""
+    L = lengths(c)
+    return [np.exp(1j * c["theta"][ax]) if c["theta"][ax] != 0.0 else 1.0 for ax in range(3)]
 
 
 def tile(c, A, with_phase):
@@ -294,7 +297,8 @@ def one_case(ctx, c, sample=False):
 
 PER = {k: "periodic" for k in Y.FACES}
 FORCED = [
-    dict(shape=[3, 2, 4], m=[2, 1, 1], faces=dict(PER), bloch=False, theta=[0.0, 0.0, 0.0], widths=None, steps=3),
+    dict(shape=[3, 2, 4], m=[2, 1, 1], faces=dict(PER), bloch=False, theta=[0.0, 0.0, 0.0], widths=None, steps=3,
+         leftover=[1.1e7, 0.0, -0.7e7]),      # periodic faces must ignore a leftover bloch_vector in the BoundaryConfig
     dict(shape=[2, 3, 2], m=[1, 3, 2], faces={"min_x": "pec", "max_x": "pmc", "min_y": "bloch", "max_y": "bloch", "min_z": "periodic", "max_z": "periodic"},
          bloch=True, theta=[0.0, 1.7, 0.0], widths=None, steps=2, sig_e=True),
     dict(shape=[3, 3, 2], m=[2, 1, 2], faces={"min_x": "bloch", "max_x": "bloch", "min_y": "none", "max_y": "none", "min_z": "bloch", "max_z": "bloch"},
